@@ -594,7 +594,17 @@ func ToPatch(d PatchDesc) (patch.Patch, error) {
 	case AddNote:
 		return patch.NewJSONPatch(fmt.Sprintf(`[{"op":"add","path":"/note","value":%q}]`, d.Mark))
 	case FailTest:
-		return patch.NewJSONPatch(`[{"op":"remove","path":"/doesNotExist/x"}]`)
+		// a valid ietf-json-patch that cannot be applied - in several ways (the marker picks one)
+		shapes := []string{
+			`[{"op":"remove","path":"/doesNotExist/x"}]`,
+			`[{"op":"add","path":"/tmpA","value":null},{"op":"add","path":"/tmpA/b","value":1}]`,
+			`[{"op":"test","path":"/tmpX"}]`,
+			`[{"op":"add","path":"/tmpL","value":[1]},{"op":"replace","path":"/tmpL/-1","value":2}]`,
+			`[{"op":"move","from":"/doesNotExist","path":"/tmpM"}]`,
+			`[{"op":"copy","from":"/doesNotExist/deeper","path":"/tmpC"}]`,
+		}
+
+		return patch.NewJSONPatch(shapes[idMarkHash("fail", d.Mark)%len(shapes)])
 	case ReplaceNote:
 		return patch.NewJSONPatch(fmt.Sprintf(`[{"op":"test","path":"/note","value":%q},{"op":"replace","path":"/note","value":%q}]`, d.IDs[0], d.Mark))
 	case RemoveNote:
